@@ -884,14 +884,21 @@ func stress(n *consensus.RaftNode, r *xp.Req) (ops, panics int) {
 					continue
 				}
 				guard(func() {
+					// like the API handlers: the answer is serialised after the query returned
 					switch i % 3 {
 					case 0:
-						n.QueryMembership(ev)
+						if p, err := n.QueryMembership(ev); err == nil {
+							json.Marshal(protocol.ToMembershipResult(ev, p))
+						}
 					case 1:
-						n.QueryMembershipConsistency(ev, uint64(k/2))
+						if p, err := n.QueryMembershipConsistency(ev, uint64(k/2)); err == nil {
+							json.Marshal(protocol.ToMembershipResult(ev, p))
+						}
 					default:
 						if k > 2 {
-							n.QueryConsistency(uint64(i%(k/2)), uint64(k/2))
+							if p, err := n.QueryConsistency(uint64(i%(k/2)), uint64(k/2)); err == nil {
+								json.Marshal(protocol.ToIncrementalResponse(p))
+							}
 						}
 					}
 				})
